@@ -93,6 +93,7 @@ Record shared := {
 
 Record thread := {
   th_prog : list (list lop);         (* head = rest of the current call; [] head = about to return *)
+  th_done : list lop;                (* ghost: operations of the current call already executed *)
   th_k : nat;                        (* index of the current call *)
   th_tid : N;                        (* request.transaction_id *)
   th_resp : list frame;              (* local `response` bytes *)
@@ -192,13 +193,13 @@ Definition exec_op (re : bool) (t k : nat) (s : shared) (l : local) (o : lop) : 
 Definition local_of (th : thread) : local :=
   {| lo_tid := th_tid th; lo_resp := th_resp th; lo_result := th_result th; lo_inflight := th_inflight th |}.
 
-Definition with_local (th : thread) (prog : list (list lop)) (l : local) : thread :=
-  {| th_prog := prog; th_k := th_k th; th_tid := lo_tid l; th_resp := lo_resp l;
+Definition with_local (th : thread) (prog : list (list lop)) (o : lop) (l : local) : thread :=
+  {| th_prog := prog; th_done := th_done th ++ [o]; th_k := th_k th; th_tid := lo_tid l; th_resp := lo_resp l;
      th_result := lo_result l; th_inflight := lo_inflight l; th_results := th_results th |}.
 
 (* `return response`: the call is over *)
 Definition do_return (th : thread) (rest : list (list lop)) : thread :=
-  {| th_prog := rest; th_k := S (th_k th); th_tid := th_tid th; th_resp := [];
+  {| th_prog := rest; th_done := []; th_k := S (th_k th); th_tid := th_tid th; th_resp := [];
      th_result := None; th_inflight := false;
      th_results := th_results th ++ [(th_k th, th_result th)] |}.
 
@@ -219,13 +220,13 @@ Definition step (re : bool) (σ : state) (t : nat) : option state :=
       | (o :: r) :: rest =>
           match exec_op re t (th_k th) (st_sh σ) (local_of th) o with
           | None => None
-          | Some (s', l') => Some {| st_sh := s'; st_thr := upd (st_thr σ) t (with_local th (r :: rest) l') |}
+          | Some (s', l') => Some {| st_sh := s'; st_thr := upd (st_thr σ) t (with_local th (r :: rest) o l') |}
           end
       end
   end.
 
 Definition init_thread (prog : list (list lop)) : thread :=
-  {| th_prog := prog; th_k := 0; th_tid := 0; th_resp := []; th_result := None;
+  {| th_prog := prog; th_done := []; th_k := 0; th_tid := 0; th_resp := []; th_result := None;
      th_inflight := false; th_results := [] |}.
 
 Definition init_shared (tid0 : N) : shared :=
@@ -266,6 +267,16 @@ Fixpoint proj (ops : list lop) : list evkind :=
   end.
 
 Definition block (t k : nat) (ops : list lop) : list event := map (mk_event t k) (proj ops).
+
+(* a sequence of operations of one thread with nobody else moving *)
+Fixpoint run_ops (re : bool) (t k : nat) (s : shared) (l : local) (ops : list lop) : option (shared * local) :=
+  match ops with
+  | [] => Some (s, l)
+  | o :: r => match exec_op re t k s l o with
+              | Some (s', l') => run_ops re t k s' l' r
+              | None => None
+              end
+  end.
 
 (* unrolling the retry loop n times *)
 Fixpoint repeat_ops (n : nat) (body : list lop) : list lop :=
